@@ -1558,6 +1558,57 @@ pub fn c19a_case(seed: u64) -> HCase {
     HCase { seed, cfg, idle_timeout_secs: 3600, ops, check_reports: true, use_async: false }
 }
 
+/// C16 at the Handler level (`c16h`): the request path prints a parsed rule to text, re-parses that text and
+/// stores the result - what the catalog then holds (and what a restart reloads) must mean what the client
+/// sent. Rules are drawn from the full shape pool and registered with `+<clause>`; the oracle registers the
+/// ORIGINAL text through the engine API on a pristine store; answers are compared before and after restarts.
+pub fn c16h_case(seed: u64) -> HCase {
+    let mut rc = Rng::new(seed, P_CFG);
+    let mut rw = Rng::new(seed, P_WORK);
+    let kg = "default".to_string();
+    let mut ops = Vec::new();
+    let facts_r: Vec<T> = (0..rw.range(3, 6)).map(|_| t64(rw.range(0, 5) as i64, rw.range(0, 5) as i64)).collect();
+    let facts_s: Vec<T> = (0..rw.range(1, 3)).map(|_| t64(rw.range(0, 5) as i64, rw.range(0, 5) as i64)).collect();
+    ops.push(HOp::Program { kg: kg.clone(), text: bulk_text("r", &facts_r), effect: Effect::Insert { rel: "r".into(), tuples: facts_r } });
+    ops.push(HOp::Program { kg: kg.clone(), text: bulk_text("s", &facts_s), effect: Effect::Insert { rel: "s".into(), tuples: facts_s } });
+    let mut heads: Vec<String> = Vec::new();
+    for _ in 0..rw.range(2, 6) {
+        match rw.below(10) {
+            0..=5 => {
+                let h = format!("d{}", rw.below(3));
+                let body = rw.pick(RULE_BODIES).replace("{h}", &h);
+                if !heads.contains(&h) {
+                    heads.push(h.clone());
+                }
+                ops.push(HOp::Program { kg: kg.clone(), text: format!("+{body}"), effect: Effect::Rule { name: h.clone(), text: body } });
+                ops.push(HOp::Query { kg: kg.clone(), text: format!("?{h}(X, Y)") });
+            }
+            6..=7 => {
+                ops.push(HOp::Restart);
+                for h in &heads {
+                    ops.push(HOp::Query { kg: kg.clone(), text: format!("?{h}(X, Y)") });
+                }
+            }
+            8 => {
+                let t = t64(rw.range(0, 5) as i64, rw.range(0, 5) as i64);
+                ops.push(HOp::Program { kg: kg.clone(), text: format!("+r{}", tuple_lit(&t)), effect: Effect::Insert { rel: "r".into(), tuples: vec![t] } });
+            }
+            _ => {
+                if let Some(h) = heads.first().cloned() {
+                    ops.push(HOp::Query { kg: kg.clone(), text: format!("?{h}(X, Y)") });
+                }
+            }
+        }
+    }
+    ops.push(HOp::Restart);
+    for h in &heads {
+        ops.push(HOp::Query { kg: kg.clone(), text: format!("?{h}(X, Y)") });
+    }
+    let mut cfg = swarm_cfg(&mut rc, true);
+    cfg.num_threads = 1;
+    HCase { seed, cfg, idle_timeout_secs: 3600, ops, check_reports: false, use_async: false }
+}
+
 /// C19 worker-batching family: 1-3 batches of commands queued behind the parked incremental worker.
 pub fn c19w_case(seed: u64) -> crate::incsc::ICase {
     use crate::incsc::IOp;
